@@ -56,6 +56,7 @@ pub fn op_kind(op: &Op) -> &'static str {
         Op::DropFile { .. } => "drop_file",
         Op::DropDir { .. } => "drop_dir",
         Op::Extents { .. } => "extents",
+        Op::CloneFile { .. } => "clone_file",
         Op::SetTime { .. } => "set_time",
         Op::Stats => "stats",
         Op::StatusFlags => "status_flags",
